@@ -473,6 +473,31 @@ def seededServerWiring : Generated.LimiterWiring.ServerWiring where
 
 example : serverWiredOk seededServerWiring = false := by decide
 
+/-- one place that can change a limit field of a Config is legitimate when it is: the `Apply` method of the limit option of this
+    very field, assigning the option's own value (`optionApplies`, judged by `optionApplyOk` above); a server's connection
+    set-up handing down its own setting of the same limit; or the defaults (1) in `config.NewCommon` -/
+def limitWriteOk (w : String × String × String × String × String) : Bool :=
+  (w.1 == "options/commonOptions.go" && w.2.2.2.1 == "assign" &&
+    Generated.LimiterWiring.optionApplies.any (fun a => a.1 ++ "." ++ a.2.1 == w.2.1 && a.2.2.1 == "cfg." ++ w.2.2.1 && a.2.2.2 == w.2.2.2.2)) ||
+  (w.2.2.2.1 == "assign" && w.2.2.2.2 == "s.cfg." ++ w.2.2.1 &&
+    Generated.LimiterWiring.serverWirings.any (fun s => s.pkg ++ "/server.go" == w.1 && "Server." ++ s.fn == w.2.1)) ||
+  (w.1 == "options/config/common.go" && w.2.1 == "NewCommon" && w.2.2.2.1 == "literal" && w.2.2.2.2 == "1")
+
+/-- The converse of `server_and_option_wiring`: NOBODY ELSE writes the two limit fields. Over all non-test Go files of the
+    repository, every assignment / increment / address-of / literal initialisation of `LimitClientParallelRequests` or
+    `LimitClientEndpointParallelRequests` is one of the legitimate ones - so whatever other options stand before or after the
+    limit options in an option list, the limiter is constructed with the limits the limit options gave (or the defaults). -/
+theorem limits_written_only_by_limit_options :
+    Generated.LimiterWiring.limitFieldWrites.all limitWriteOk = true ∧
+    (Generated.LimiterWiring.limitFieldWrites.filter (fun w => w.2.2.2.1 != "literal")).length =
+      Generated.LimiterWiring.optionApplies.length +
+      (Generated.LimiterWiring.serverWirings.map (·.sets.length)).foldl (· + ·) 0 := by
+  decide
+
+/-- the seeded interaction (C16-L: `WithTransmission` raising the total limit to NSTART on the udp client Config) is rejected -/
+example : limitWriteOk ("options/udpOptions.go", "TransmissionOpt.UDPClientApply", "LimitClientParallelRequests", "assign", "nStart") = false := by
+  decide
+
 theorem effective_one_le (l : Int) : effective 1 ≤ effective l := by
   have := effective_pos l
   have e : effective 1 = 1 := by decide
@@ -562,6 +587,7 @@ section Audit
 open CoapVerif.Props.C16
 #print axioms every_request_path_is_limited
 #print axioms server_and_option_wiring
+#print axioms limits_written_only_by_limit_options
 #print axioms effective_one_le
 #print axioms accepted_connection_within_configured
 #print axioms endpoint_limit_inv
